@@ -271,6 +271,14 @@ def c14_d(ctx: Ctx):
         else:
             out.append(ctx.viol(R, cb, cfgb.nodes[y].ast, "the body can run without a fresh backup having been written (e.g. a stale '~' file from an earlier failure is reused): the roll-back "
                                 "restores content that is not the pre-sync document", construct=k, witness=cfgb.describe_path(w) if w else None))
+    restores = {n.id for n in cfgb.stmt_nodes() if n.kind == "stmt" for c in walk_no_nested(n.ast) if isinstance(c, ast.Call) and isinstance(c.func, ast.Attribute)
+                and c.func.attr in ("_copy2", "_copy", "copy2", "copy", "replace") and len(c.args) == 2 and _is_tilde(ctx, cb, c.args[0]) and not _is_tilde(ctx, cb, c.args[1])}
+    pre = [r for r in restores if any(y in cfgb.reachable([r], kinds="n") for y in ynodes)]
+    if pre:
+        out.append(ctx.viol(R, cb, cfgb.nodes[pre[0]].ast, "a left-over '~' file is copied back over the document before the synchronisation starts: destination-only changes made since that "
+                            "file was written are lost although this sync did not fail", construct=cb.qual + "|restore-before-yield"))
+    else:
+        out.append(ctx.ok(R, cb, cb.node, "the backup is copied back over the original only in the roll-back handler", construct=cb.qual + "|restore-before-yield"))
     stale = [n for n in body_nodes(cb) if isinstance(n, ast.Raise)]
     okstale = False
     for r in stale:
@@ -352,6 +360,24 @@ def c14_e(ctx: Ctx):
         out.append(ctx.ok(R, None, None, "DocSync.NO_SYNC is False and DocSync.COPY is a distinct sentinel", construct="DocSync|sentinels"))
     else:
         out.append(ctx.viol(R, None, None, f"DocSync sentinels changed: NO_SYNC={ns!r} COPY={cp!r}", construct="DocSync|sentinels"))
+    ms = ctx.prog.funcs.get("signac.__main__:main_sync")
+    if ms is not None:
+        for n in body_nodes(ms):
+            if isinstance(n, ast.Assign) and any(isinstance(t, ast.Name) and t.id == "doc_sync" for t in n.targets):
+                facts = common.facts_at(ctx, ms, n, "n")
+                v = n.value
+                isbykey = isinstance(v, ast.Call) and canon(v.func) in ("DocSync.ByKey", "sync.DocSync.ByKey")
+                for flag, want in (("args.all_keys", "True"), ("args.no_keys", "False")):
+                    if (flag, True) in facts:
+                        k = f"{ms.qual}|{flag}"
+                        lam = v.args[0] if isbykey and v.args else None
+                        if isbykey and isinstance(lam, ast.Lambda) and canon(lam.body) == want:
+                            out.append(ctx.ok(R, ms, n, f"command line {flag.replace('args.', '--').replace('_', '-')} -> key-by-key merge with a strategy that answers {want} for every key", construct=k))
+                        elif not isbykey:
+                            out.append(ctx.viol(R, ms, n, f"command line {flag.replace('args.', '--').replace('_', '-')} maps to {canon(v)[:40]} instead of DocSync.ByKey(<constant strategy>): nested "
+                                                "sub-documents are replaced wholesale (destination-only nested keys are lost) instead of being merged key by key", construct=k))
+                        else:
+                            out.append(ctx.inc(R, ms, n, f"{flag}: strategy {canon(v)[:50]}", construct=k))
     for q in ("signac.sync:sync_jobs", "signac.sync:sync_projects"):
         fi = ctx.fn(q)
         for n in body_nodes(fi):
@@ -372,4 +398,14 @@ def c14_f(ctx: Ctx):
      ("signac.sync:sync_projects", "doc_sync", "DocSync.NO_SYNC is the value False: a truthiness test turns 'do not synchronise documents' into the default ByKey merge")])
 
 
-RULES = [c14_a, c14_b, c14_c, c14_d, c14_e, c14_f]
+@rule("C14-g")
+def c14_g(ctx: Ctx):
+    """An existing destination job is never merged into by cloning: Project.clone reports it as DestinationExistsError so that the conflict rules of sync_jobs apply (from C04-b)."""
+    from .c04 import c04_b
+    res = [r for r in c04_b(ctx) if "Project.clone" in r.function]
+    for r in res:
+        r.rule = "C14-g"
+    return res
+
+
+RULES = [c14_a, c14_b, c14_c, c14_d, c14_e, c14_f, c14_g]
